@@ -139,6 +139,39 @@ class _Canon(ast.NodeTransformer):
         self.generic_visit(n)
         return self._collapse_unpack(n) if isinstance(n.ctx, ast.Load) else n
 
+    # comprehension variables are bound names: spelled canonically (_c0, _c1, ...) so that renaming them is invisible
+    def _comp(self, n):
+        depth = getattr(self, "_cdepth", 0)
+        self._cdepth = depth + 1
+        names = []
+        for g in n.generators:
+            for t in ast.walk(g.target):
+                if isinstance(t, ast.Name) and t.id not in names:
+                    names.append(t.id)
+        mapping = {nm: "_c%d_%d" % (depth, i) for i, nm in enumerate(names)}
+
+        class R(ast.NodeTransformer):
+            def visit_Name(self, x):
+                if x.id in mapping:
+                    return ast.copy_location(ast.Name(id=mapping[x.id], ctx=x.ctx), x)
+                return x
+        n = R().visit(n)
+        self.generic_visit(n)
+        self._cdepth = depth
+        return n
+
+    def visit_ListComp(self, n):
+        return self._comp(n)
+
+    def visit_SetComp(self, n):
+        return self._comp(n)
+
+    def visit_DictComp(self, n):
+        return self._comp(n)
+
+    def visit_GeneratorExp(self, n):
+        return self._comp(n)
+
     def visit_Call(self, n):
         self.generic_visit(n)
         f = n.func
